@@ -1863,14 +1863,30 @@ pub fn load_link(link_id: Marked<String>) -> Link {
 fn get_queue_size_for_link(link_id: String) -> (String, usize) {
     let (name, queue_size) =
         if let Some((name, options)) = link_id.split_once(':') {
-            let queue_len = options.parse::<usize>().unwrap_or_else(|err| {
-                warn!(
+            // A bounded channel needs room for at least one update and
+            // cannot be larger than Tokio's semaphore allows.
+            const MAX_UPDATE_QUEUE_LEN: usize = usize::MAX >> 3;
+            let queue_len = options
+                .parse::<usize>()
+                .map_err(|err| err.to_string())
+                .and_then(|len| {
+                    if (1..=MAX_UPDATE_QUEUE_LEN).contains(&len) {
+                        Ok(len)
+                    } else {
+                        Err(format!(
+                            "must be between 1 and {}",
+                            MAX_UPDATE_QUEUE_LEN
+                        ))
+                    }
+                })
+                .unwrap_or_else(|err| {
+                    warn!(
                 "Invalid queue length '{}' for '{}', falling back to the \
                 default ({}): {}",
                 options, name, DEF_UPDATE_QUEUE_LEN, err
             );
-                DEF_UPDATE_QUEUE_LEN
-            });
+                    DEF_UPDATE_QUEUE_LEN
+                });
             (name.to_string(), queue_len)
         } else {
             (link_id, DEF_UPDATE_QUEUE_LEN)
